@@ -27,7 +27,7 @@ Qed.
 Lemma sx_covered_insert_edge : so_covered sx_db (CqInsertEdge 2 1).
 Proof.
   split; [unfold so_cap_ok; vm_compute; reflexivity|]. cbn [so_covered].
-  split; [lia|]. split; [lia|]. split; vm_compute; reflexivity.
+  split; [lia|]. split; [lia|]. left. split; vm_compute; reflexivity.
 Qed.
 
 Lemma sx_covered_all : so_covered_all rv_fixed sx_db [CqInsertEdge 2 1; CqRemove (-3)].
@@ -62,6 +62,16 @@ Theorem sx_link_sample_hinv :
   HistoryAtomicProofs.HInv sx_db /\ stored_db_w sx_g 1 sx_db sx_wit /\
   so_covered_all rv_fixed sx_db [CqInsertEdge 2 1; CqRemove (-3)].
 Proof. split; [exact sx_HInv|]. split; [exact sx_stored|exact sx_covered_all]. Qed.
+
+(* a rejected edge insertion: 3 is the slot of the edge -3, not a node *)
+Lemma sx_covered_rejected :
+  so_covered sx_db (CqInsertEdge 1 3) /\
+  Queries.exec rv_fixed sx_db (cq_query (CqInsertEdge 1 3)) = (sx_db, QErr ENotFound).
+Proof.
+  split; [|vm_compute; reflexivity].
+  split; [unfold so_cap_ok; vm_compute; reflexivity|]. cbn [so_covered].
+  split; [lia|]. split; [lia|]. right. split; vm_compute; reflexivity.
+Qed.
 
 Theorem sx_link_sample :
   wf (gr sx_db) /\ so_covered sx_db (CqRemove (-3)) /\ so_covered sx_db (CqInsertEdge 2 1) /\
